@@ -133,10 +133,12 @@ func collect(v interface{}, path []interface{}, key string, out *[]edit) {
 						}
 					}
 				case "Num":
+					// only towards an earlier candidate, so that shrinking terminates
 					for _, n := range numCandidates {
-						if cv != n {
-							*out = append(*out, edit{p, "set", n})
+						if cv == n {
+							break
 						}
+						*out = append(*out, edit{p, "set", n})
 					}
 				case "Q":
 					if cv != `"` {
@@ -252,28 +254,28 @@ func shrink(p Prog, class string, sem bool) (Prog, verdict) {
 		v := checkSrc(fromTree(t).Render(), sem)
 		return v, v.Class == class
 	}
-	budget := 6000
+	budget := 2500
 	for changed := true; changed && budget > 0; {
 		changed = false
 		var edits []edit
 		collect(best, nil, "", &edits)
-		for _, e := range edits {
-			if budget <= 0 {
-				break
-			}
+		for idx := 0; idx < len(edits) && budget > 0; {
 			budget--
-			cand := apply(best, e)
+			cand := apply(best, edits[idx])
 			if v, ok := still(cand); ok {
 				best, bestV, changed = cand, v, true
-				break // positions moved: recollect
+				// positions moved: recollect, stay at the same index
+				edits = edits[:0]
+				collect(best, nil, "", &edits)
+				continue
 			}
+			idx++
 		}
 	}
 	// canonical names
-	if r := rename(fromTree(best)); true {
-		if v, ok := still(toTree(r)); ok {
-			return r, v
-		}
+	r := rename(fromTree(best))
+	if v, ok := still(toTree(r)); ok {
+		return r, v
 	}
 	return fromTree(best), bestV
 }
